@@ -154,6 +154,13 @@ def Value.toStr : Value N → String
   | .str s => s
   | v => v.ty.objString
 
+/-- Arrays and dictionaries print themselves as config text (`Array::ToString` → ConfigWriter, recursing without a
+    cycle check — finding F-C15e); the model does not reproduce that text: `none`. -/
+def Value.toStr? : Value N → Option String
+  | .arr _ => none
+  | .dict _ => none
+  | v => some v.toStr
+
 def opTypeErr (op : String) (l r : Value N) : Err :=
   .script .optype ("Operator " ++ op ++ " cannot be applied to values of type '" ++ l.ty.name ++ "' and '" ++ r.ty.name ++ "'")
 
